@@ -244,7 +244,7 @@ func divergent(t *rapid.T) (prog.Generated, string) {
 		}
 	}
 	base := prog.Rule{Head: prog.Atom{Pred: "i0", Args: []prog.Term{v("X")}}, Body: []prog.Lit{prog.PosLit(prog.Atom{Pred: "e0", Args: []prog.Term{v("X")}})}}
-	shape := rapid.SampledFrom([]string{"diverge-plus", "diverge-mult", "diverge-mutual", "diverge-let", "diverge-list", "diverge-pair", "finite-counter", "finite-product", "diverge-late-stratum", "finite-groups", "finite-groups"}).Draw(t, "shape")
+	shape := rapid.SampledFrom([]string{"diverge-plus", "diverge-mult", "diverge-mutual", "diverge-let", "diverge-list", "diverge-pair", "finite-counter", "finite-product", "diverge-late-stratum", "finite-groups", "finite-groups", "finite-member-fanout"}).Draw(t, "shape")
 	step := func(head, body string, fn string, k int64) prog.Rule {
 		return prog.Rule{Head: prog.Atom{Pred: head, Args: []prog.Term{v("Y")}},
 			Body: []prog.Lit{prog.PosLit(prog.Atom{Pred: body, Args: []prog.Term{v("X")}}), prog.EqLit(v("Y"), prog.Fn(fn, v("X"), prog.Num(k)))}}
@@ -304,6 +304,24 @@ func divergent(t *rapid.T) (prog.Generated, string) {
 		if rapid.Bool().Draw(t, "consumer") {
 			g.Prog.Rules = append(g.Prog.Rules, prog.Rule{Head: prog.Atom{Pred: "i1", Args: []prog.Term{v("K")}}, Body: []prog.Lit{prog.PosLit(prog.Atom{Pred: "s0", Args: []prog.Term{v("K"), v("N")}})}})
 		}
+	case "finite-member-fanout":
+		// a finite but large model produced inside ONE rule evaluation by a built-in that fans out: every element
+		// of a list held in a base fact, squared or cubed; the number of created facts must not depend on the
+		// length of the list beyond what the limit allows
+		n := rapid.IntRange(4, 14).Draw(t, "listLen")
+		lst := val.V{T: val.List}
+		for i := 0; i < n; i++ {
+			lst.E = append(lst.E, val.I(int64(i)))
+		}
+		g.Prog.Decls = append(g.Prog.Decls, prog.Decl{Pred: "l0", Arity: 1})
+		g.Extra = append(g.Extra, prog.Atom{Pred: "l0", Args: []prog.Term{prog.Const(lst)}})
+		vars := []string{"X", "Y", "Z"}[:rapid.IntRange(2, 3).Draw(t, "fan")]
+		r := prog.Rule{Head: prog.Atom{Pred: "i1", Args: []prog.Term{}}, Body: []prog.Lit{prog.PosLit(prog.Atom{Pred: "l0", Args: []prog.Term{v("L")}})}}
+		for _, x := range vars {
+			r.Head.Args = append(r.Head.Args, v(x))
+			r.Body = append(r.Body, prog.PosLit(prog.Atom{Pred: ":list:member", Args: []prog.Term{v(x), v("L")}}))
+		}
+		g.Prog.Rules = []prog.Rule{base, r}
 	case "diverge-late-stratum":
 		// a finite first stratum, divergence only in a later one (after a negation)
 		neg := prog.Rule{Head: prog.Atom{Pred: "i1", Args: []prog.Term{v("X")}}, Body: []prog.Lit{prog.PosLit(prog.Atom{Pred: "i0", Args: []prog.Term{v("X")}}), prog.NegLit(prog.Atom{Pred: "e0", Args: []prog.Term{prog.Num(99)}})}}
